@@ -398,7 +398,10 @@ impl IntColBuffer {
         self.max = cmp::max(elem, self.max);
         if elem > self.last {
             self.increasing += 1;
-        } else if elem.checked_sub(self.last).is_none() {
+        }
+        // The step between consecutive values must fit in i64 in either direction
+        // (`last` is only a placeholder before the first value).
+        if !self.data.is_empty() && elem.checked_sub(self.last).is_none() {
             self.allow_delta_encode = false;
         };
         self.last = elem;
